@@ -28,16 +28,16 @@ WRAPS = ["poll", "recv", "send", "connect", "accept", "getsockopt", "setsockopt"
 
 
 def build(B):
-    lib = B.build_lib("asan", exclude={"monoclock.c"})
+    lib = B.build_lib("asan", exclude={"monoclock.c"}, with_ssl=True)
     need = {"events.c", "events_immediate.c", "events_network.c", "events_network_selectstats.c", "events_timer.c",
             "timerqueue.c", "ptrheap.c", "elasticarray.c", "elasticqueue.c", "seqptrmap.c", "warnp.c", "network_read.c",
-            "network_write.c", "network_connect.c", "network_accept.c", "netbuf_read.c", "netbuf_write.c", "http.c", "sock.c",
+            "network_write.c", "network_connect.c", "network_accept.c", "netbuf_read.c", "netbuf_write.c", "http.c", "https.c", "network_ssl.c", "network_ssl_compat.c", "netbuf_ssl.c", "sock.c",
             "sock_util.c", "asprintf.c", "noeintr.c", "humansize.c", "crypto_aes.c", "crypto_aes_aesni.c", "crypto_aesctr.c", "crypto_aesctr_aesni.c",
             "cpusupport_x86_aesni.c", "insecure_memzero.c"}
     objs = [lib[k] for k in sorted(need) if k in lib]
     shim = B.compile_c(os.path.join(HERE, "shim.c"))
     core = B.compile_cxx(os.path.join(HERE, "core.cpp"))
-    return B.link(os.path.join(B.BUILD, "bin", "C14"), [core, shim] + objs, libs=["-lrapidcheck", "-lcrypto"], wraps=WRAPS)
+    return B.link(os.path.join(B.BUILD, "bin", "C14"), [core, shim] + objs, libs=["-lrapidcheck", "-lssl", "-lcrypto"], wraps=WRAPS)
 
 
 MANIFEST = dict(
